@@ -95,6 +95,48 @@ def scanStr : Str → Option Nat
 def mkNum (c : Char) (text : Str) : Tok :=
   if c == 'i' then .int text else if c == 'f' then .float text else .dec text
 
+/-- a letter starts a word: an `i… / f… / d…` literal if that is at least as long as the word, else a
+    keyword or an identifier -/
+def wordTok (c : Char) (rest : Str) : Tok :=
+  if keywords.contains (c :: rest.take (countWhile isIdc rest)) then .kw (c :: rest.take (countWhile isIdc rest))
+  else .ident (c :: rest.take (countWhile isIdc rest))
+
+def stepWord (c : Char) (rest : Str) : Tok × Str :=
+  match (if c == 'i' || c == 'f' || c == 'd' then matchNum c rest else none) with
+  | some n =>
+    if n ≥ countWhile isIdc rest then (mkNum c (c :: rest.take n), rest.drop n)
+    else (wordTok c rest, rest.drop (countWhile isIdc rest))
+  | none => (wordTok c rest, rest.drop (countWhile isIdc rest))
+
+/-- `0x… / 0o… / 0b…` after the leading `0`: characters matched after the `0`, and the token constructor -/
+def matchRadix (rest : Str) : Option (Nat × (Str → Tok)) :=
+  match rest with
+  | 'x' :: r => if countWhile isHex r > 0 then some (1 + countWhile isHex r, Tok.hex) else none
+  | 'o' :: r => if countWhile isOct r > 0 then some (1 + countWhile isOct r, Tok.oct) else none
+  | 'b' :: r => if countWhile isBin r > 0 then some (1 + countWhile isBin r, Tok.bin) else none
+  | _ => none
+
+/-- a digit starts an INDEX, or a radix literal when that is at least as long -/
+def stepDigit (c : Char) (rest : Str) : Tok × Str :=
+  match (if c == '0' then matchRadix rest else none) with
+  | some (n, mk) =>
+    if n ≥ countWhile isDigit rest then (mk (c :: rest.take n), rest.drop n)
+    else (.index (c :: rest.take (countWhile isDigit rest)), rest.drop (countWhile isDigit rest))
+  | none => (.index (c :: rest.take (countWhile isDigit rest)), rest.drop (countWhile isDigit rest))
+
+def stepString (rest : Str) : Option (Tok × Str) :=
+  match scanStr rest with
+  | some n => some (.str ('"' :: rest.take n), rest.drop n)
+  | none => none
+
+def stepPunct (c : Char) (rest : Str) : Option (Tok × Str) :=
+  match rest with
+  | d :: r2 =>
+    if punct2.contains [c, d] then some (.p [c, d], r2)
+    else if punct1.contains c then some (.p [c], rest)
+    else none
+  | [] => if punct1.contains c then some (.p [c], rest) else none
+
 /-- one step at a non-empty input: a token (or a skip) and the rest; `none` = invalid token -/
 def step : Str → Option (Option Tok × Str)
   | [] => none
@@ -102,44 +144,18 @@ def step : Str → Option (Option Tok × Str)
     if Str.isWhite c then some (none, rest.dropWhile Str.isWhite)
     else if c == '/' && rest.head? == some '/' then
       some (none, ((rest.drop 1).dropWhile (fun ch => !isEol ch)).dropWhile isEol)
-    else if isAlpha c then
-      let wlen := countWhile isIdc rest            -- the word is c :: rest.take wlen
-      let num := if c == 'i' || c == 'f' || c == 'd' then matchNum c rest else none
-      match num with
-      | some n =>
-        if n ≥ wlen then some (some (mkNum c (c :: rest.take n)), rest.drop n)
-        else
-          let w := c :: rest.take wlen
-          some (some (if keywords.contains w then .kw w else .ident w), rest.drop wlen)
-      | none =>
-        let w := c :: rest.take wlen
-        some (some (if keywords.contains w then .kw w else .ident w), rest.drop wlen)
-    else if isDigit c then
-      let dlen := countWhile isDigit rest          -- INDEX = c :: rest.take dlen
-      let radix : Option (Nat × (Str → Tok)) :=
-        if c == '0' then
-          match rest with
-          | 'x' :: r => let k := countWhile isHex r; if k > 0 then some (1 + k, Tok.hex) else none
-          | 'o' :: r => let k := countWhile isOct r; if k > 0 then some (1 + k, Tok.oct) else none
-          | 'b' :: r => let k := countWhile isBin r; if k > 0 then some (1 + k, Tok.bin) else none
-          | _ => none
-        else none
-      match radix with
-      | some (n, mk) =>
-        if n ≥ dlen then some (some (mk (c :: rest.take n)), rest.drop n)
-        else some (some (.index (c :: rest.take dlen)), rest.drop dlen)
-      | none => some (some (.index (c :: rest.take dlen)), rest.drop dlen)
+    else if isAlpha c then some (some (stepWord c rest).1, (stepWord c rest).2)
+    else if isDigit c then some (some (stepDigit c rest).1, (stepDigit c rest).2)
     else if c == '"' then
-      match scanStr rest with
-      | some n => some (some (.str (c :: rest.take n)), rest.drop n)
+      match stepString rest with
+      | some (t, r) => some (some t, r)
       | none => none
     else
-      match rest with
-      | d :: r2 =>
-        if punct2.contains [c, d] then some (some (.p [c, d]), r2)
-        else if punct1.contains c then some (some (.p [c]), rest)
-        else none
-      | [] => if punct1.contains c then some (some (.p [c]), rest) else none
+      match stepPunct c rest with
+      | some (t, r) => some (some t, r)
+      | none => none
+
+attribute [irreducible] step
 
 def lexAux : Nat → Str → Option (List Tok)
   | _, [] => some []
